@@ -39,6 +39,8 @@ func vcFileName(dir string, vc *VC) string {
 
 // smtText renders one obligation.
 func (vc *VC) smtText(prelude string, extra string) string {
+	smtMu.RLock()
+	defer smtMu.RUnlock()
 	var b strings.Builder
 	b.WriteString("; obligation " + vc.Name + "\n; at " + vc.Pos + "\n")
 	if vc.ClauseText != "" {
@@ -191,6 +193,44 @@ func firstLines(s string, n int) string {
 }
 
 // solveAll discharges obligations in parallel.
+// altWorld lets the solver stage ask for the same obligation generated without explicit
+// instantiation patterns (z3 switches MBQI off for quantifiers that carry patterns; some
+// goals need E-matching hints, others need MBQI).
+var altWorld *World
+var altCache = map[string]*FuncResult{}
+var altMu sync.Mutex
+var smtMu sync.RWMutex
+
+func altVC(vc *VC) *VC {
+	if altWorld == nil || vc.fv == nil || vc.fv.fd == nil || vc.fv.noPatterns {
+		return nil
+	}
+	altMu.Lock()
+	defer altMu.Unlock()
+	r, ok := altCache[vc.fv.instName]
+	if !ok {
+		var orig *FuncResult
+		for _, fr := range altWorld.res {
+			if fr.Inst == vc.fv.instName {
+				orig = fr
+			}
+		}
+		if orig == nil {
+			return nil
+		}
+		smtMu.Lock()
+		r = VerifyFunc(altWorld.prog, altWorld.smt, altWorld.eff, orig.Key, orig.Contract, orig.Subst, orig.Inst, true)
+		smtMu.Unlock()
+		altCache[vc.fv.instName] = r
+	}
+	for _, v := range r.VCs {
+		if v.Name == vc.Name {
+			return v
+		}
+	}
+	return nil
+}
+
 func solveAll(vcs []*VC, prelude, dir string, timeoutS, seed, workers int, twoSolvers bool) {
 	os.MkdirAll(dir, 0o755)
 	var wg sync.WaitGroup
@@ -201,6 +241,17 @@ func solveAll(vcs []*VC, prelude, dir string, timeoutS, seed, workers int, twoSo
 			defer wg.Done()
 			for vc := range ch {
 				solveVC(vc, prelude, dir, timeoutS, seed, twoSolvers)
+				if vc.Status != "unsat" && vc.Status != "sat" && !vc.MustFail && !strings.HasPrefix(vc.Kind, "expect") {
+					if alt := altVC(vc); alt != nil {
+						alt.Name = vc.Name + ".nopat"
+						solveVC(alt, prelude, dir, timeoutS, seed, twoSolvers)
+						alt.Name = vc.Name
+						if alt.Status == "unsat" || alt.Status == "sat" {
+							vc.Status, vc.Solver, vc.Output, vc.TimeS = alt.Status, alt.Solver+" (no patterns)", alt.Output, vc.TimeS+alt.TimeS
+							vc.fv, vc.Hyps, vc.Goal, vc.NDecls = alt.fv, alt.Hyps, alt.Goal, alt.NDecls
+						}
+					}
+				}
 			}
 		}()
 	}
